@@ -1,4 +1,5 @@
 import IdModel.Jwk.Model
+import IdModel.Jwk.Thumb
 import Driver.Util
 namespace Driver.C18
 open IdModel.Jwk
@@ -38,7 +39,8 @@ def showKey (j : Jwk) : String :=
   let proj := match toPublic j with
     | none => "none"
     | some p => s!"{showMembers (ordered p.family p.members)};{showOps p.keyOps};{p.kty.ktyName}"
-  s!"ok:{j.kty.ktyName}:{j.family.tag}:{if isPublic j then 1 else 0}:{if isPrivate j then 1 else 0}:{showMembers (thumbprintInput j)}:{proj}"
+  let txt := Driver.hex ((String.ofList (Thumb.thumbprintText j)).toUTF8.toList.map (·.toNat))
+  s!"ok:{j.kty.ktyName}:{j.family.tag}:{if isPublic j then 1 else 0}:{if isPrivate j then 1 else 0}:{showMembers (thumbprintInput j)}:{proj}:t={txt}"
 
 def handle : List String → String
   | ["json", kty, ms, os, _perm] =>
